@@ -205,3 +205,7 @@ where
     }
     Ok(())
 }
+
+#[cfg(kani)]
+#[path = "/verif/kani/arrow-data/byte_view.rs"]
+mod verif_kani;
